@@ -19,7 +19,9 @@ META = {
         'the discriminator segment_if.is_match applies; R6 node paths (computed with the loader\'s qualifier-suffix '
         'rule) are unique and every loop/segment is found again by the modelled getnodebypath; R7 the two branches '
         'of every base_path test in the four loaders open the same file and share the code after the branch; R8 the '
-        'field names the model reads are the field names the constructors read.'),
+        'field names the model reads are the field names the constructors read. R9 outside the constructors no method of a map '
+        'node stores into the node except the two path caches filled by parameterless methods (a lookup that memoises on the node '
+        'would make "fetch by path" depend on earlier fetches).'),
     'not_decided': 'nothing of substance; "same tree from both locations" is decided as R7 + packaging (R1) rather '
                    'than by loading twice',
     'trusted_base': ['sa/xmlmodel.py mirrors map_if constructors (cross-checked by R8)', 'xml.etree parser'],
@@ -357,6 +359,50 @@ def r8_model_fields(ctx):
                  '' if not bad else 'attribute/child-element accessor reads different names: %s' % bad)
 
 
+MAP_CLASSES = ('x12_node', 'map_if', 'loop_if', 'segment_if', 'element_if', 'composite_if')
+# caches of values that depend on the node alone (filled by a method without parameters)
+NODE_CACHES = {'_fullpath', '_x12path'}
+
+
+def r9_nodes_immutable(ctx):
+    """a loaded map is read-only: outside the constructors no method of a map node stores into the node, except the two
+    path caches, which are filled by parameterless methods (so the cached value cannot depend on an argument).
+    A lookup that memoises on the node makes later lookups depend on earlier ones."""
+    n = 0
+    for cname in MAP_CLASSES:
+        cls = ctx.cls('map_if', cname)
+        for f in cls.body:
+            if not isinstance(f, ast.FunctionDef) or f.name == '__init__':
+                continue
+            # methods that raise before doing anything (deprecated counters) are dead code
+            first = [st for st in f.body if not (isinstance(st, ast.Expr) and isinstance(st.value, ast.Constant))][:1]
+            if first and isinstance(first[0], ast.Raise):
+                continue
+            params = [a.arg for a in f.args.args][1:]
+            for st in ast.walk(f):
+                tg = st.targets if isinstance(st, ast.Assign) else [st.target] if isinstance(st, ast.AugAssign) else []
+                for t in tg:
+                    for tt in ([t] if not isinstance(t, ast.Tuple) else t.elts):
+                        base = tt
+                        while isinstance(base, ast.Subscript):
+                            base = base.value
+                        p_ = path_of(base)
+                        if p_ and p_.startswith('self.'):
+                            attr = p_.split('.')[1]
+                            n += 1
+                            ok = attr in NODE_CACHES and not params
+                            yield Ob('map_if:%s.%s stores self.%s' % (cname, f.name, attr), ok, ctx.loc('map_if', st),
+                                     '' if ok else 'a method%s stores into the loaded map node (self.%s): the result of later calls then depends on earlier calls'
+                                     % (' with parameters %s' % params if params else '', attr))
+            for c in A.calls_in(f):
+                r, m = A.call_target(c)
+                if r and r.startswith('self.') and m in ('append', 'extend', 'insert', 'pop', 'remove', 'clear', 'update', 'setdefault', 'sort'):
+                    n += 1
+                    yield Ob('map_if:%s.%s mutates %s' % (cname, f.name, r), False, ctx.loc('map_if', c), 'a method mutates the loaded map node in place')
+    if n < 3:
+        raise AnalysisError('map node store audit found only %d stores' % n)
+
+
 RULES = [
     Rule('C16.R1', 'index entries name existing well-formed maps; keys unambiguous; packaged', r1_index, floor=40),
     Rule('C16.R2', 'every data_ele / external code reference resolves; dataele lengths sane', r2_refs, floor=20000),
@@ -366,4 +412,5 @@ RULES = [
     Rule('C16.R6', 'loop/segment paths unique per map and found again by getnodebypath', r6_paths, floor=3000),
     Rule('C16.R7', 'both map-location branches of the four loaders open the same file', r7_loader_branches, floor=18),
     Rule('C16.R8', 'model field names = constructor field names; accessor pairs read one name', r8_model_fields, floor=8),
+    Rule('C16.R9', 'loaded map nodes are read-only outside their constructors (only parameterless path caches)', r9_nodes_immutable, floor=3),
 ]
